@@ -6,6 +6,8 @@ import PygProofs.Lemmas.TableAbs
 import PygProofs.Lemmas.SliceLemmas
 
 namespace Pyg
+open Abs
+namespace Abs
 
 theorem bcast_map {α β} (f : α → β) (n : Nat) (xs : List α) : bcast n (xs.map f) = (bcast n xs).map f := by
   cases xs with
@@ -39,6 +41,8 @@ theorem rev_induction {α} {P : List α → Prop} (nil : P []) (snoc : ∀ l a, 
 theorem pyIdx_zero (i : Int) : pyIdx 0 i = Option.none := by
   unfold pyIdx
   rw [if_neg (by omega), if_neg (by omega)]
+
+end Abs
 
 namespace Table
 
